@@ -536,3 +536,27 @@ Proof.
   - right. apply in_or_app. right. apply in_map. apply filter_In. auto.
   - left. apply filter_In. split; [exact Hu|]. rewrite E. reflexivity.
 Qed.
+
+(* what a generated data message looks like *)
+Theorem genDataMsg_spec k h flag pl d k' x : genDataMsg k h flag pl = Ok (d, k', x) ->
+  exists keys, sessionKeysFor k (ourKeyID k - 1) (theirKeyID k) = Ok keys /\
+    af_enckey (d_fields d) = sendingKey keys /\ d_mackey d = sendingKey keys /\ d_macover d = d_fields d /\
+    d_payload d = pl /\ d_enc_intact d = true /\ d_mac_intact d = true /\ d_macenc_intact d = true /\ d_wellformed d = true /\
+    af_sk (d_fields d) = ourKeyID k - 1 /\ af_rk (d_fields d) = theirKeyID k /\ af_encctr (d_fields d) = af_ctr (d_fields d) /\
+    af_flag (d_fields d) = flag /\ af_ver (d_fields d) = h_ver h /\ af_stag (d_fields d) = h_stag h /\ af_rtag (d_fields d) = h_rtag h /\
+    ourCurrent k = Some (af_y (d_fields d)) /\ x = extraKey keys /\
+    ourKeyID k' = ourKeyID k /\ theirKeyID k' = theirKeyID k.
+Proof.
+  unfold genDataMsg. destruct (sessionKeysFor _ _ _) as [keys| |] eqn:Ek; cbn [bindR]; try discriminate.
+  set (k1 := addKeys k _ _ _).
+  destruct (find_counter _ _ _) as [c0|]; [|discriminate].
+  match goal with |- context [set_counters k1 ?cs] => set (cs' := cs) end.
+  destruct (ourCurrent (set_counters k1 cs')) as [y|] eqn:Ey; [|discriminate].
+  cbn [revealMACKeys]. intros H. injection H as <- <- <-. exists keys.
+  cbn [d_fields d_mackey d_macover d_payload d_enc_intact d_mac_intact d_macenc_intact d_wellformed
+       af_enckey af_sk af_rk af_encctr af_ctr af_flag af_ver af_stag af_rtag af_y ourKeyID theirKeyID set_counters set_oldMACKeys].
+  destruct (ids_addKeys k (ourKeyID k - 1) (theirKeyID k) (receivingKey keys)) as [E1 E2]. fold k1 in E1, E2.
+  assert (Ey' : ourCurrent k = Some y).
+  { cbn [ourCurrent set_counters] in Ey. unfold k1, addKeys in Ey. destruct (has_mac_entry _ _ _); exact Ey. }
+  repeat split; auto.
+Qed.
